@@ -31,6 +31,7 @@ class Canon:
         self.impure = False
         self.leaf = False
         self.calls = 0
+        self.mleaves = set()      # leaves that are assigned more than once in the function
 
     def place(self, pl, depth):
         out = self.local(pl["l"], depth)
@@ -65,6 +66,10 @@ class Canon:
         b = self.b
         if (b.lname(l) and b.lname(l) not in ("val", "residual")) or 1 <= l <= b["arg_count"]:
             self.leaf = True
+            # a variable that is assigned more than once holds different values at different places: two expressions over it are not
+            # "the same expression over the same inputs" (`let Some(last) = vle.as_ref()` before a loop that re-assigns `vle`)
+            if len(self.defs.whole(l)) + (1 if 1 <= l <= b["arg_count"] else 0) > 1:
+                self.mleaves.add(l)
             return "v%d" % l
         ds = self.defs.of(l)
         if len(ds) != 1:
@@ -133,7 +138,7 @@ def run(F, scopes, rule_id="R25", floor=1):
                 continue
             n_defs += 1
             span = d[2]["span"] if d[0] == "call" else b.blocks[d[1]]["stmts"][d[2]].get("span", b.file_line())
-            by.setdefault(s, []).append((nm, l, span, d[1]))
+            by.setdefault(s, []).append((nm, l, span, d[1], frozenset(c.mleaves)))
         dom = None
         for s, ls in by.items():
             names = sorted({x[0] for x in ls})
@@ -144,8 +149,37 @@ def run(F, scopes, rule_id="R25", floor=1):
             if dom is None:
                 from cfg import dominators
                 dom = dominators(b)
-            together = [(x, y) for i, x in enumerate(ls) for y in ls[i + 1:] if x[0] != y[0]
-                        and (x[3] in dom.get(y[3], ()) or y[3] in dom.get(x[3], ()))]
+            if defs is None:
+                defs = Defs(b)
+                succs = b.succs()
+
+            def same_inputs(x, y):
+                """x's definition dominates y's: no leaf of the expression is re-assigned on the way from x to y (a re-assignment from
+                which y is reachable without passing x again: `let Some(last) = vle.as_ref()` before a loop that re-assigns `vle`)"""
+                for leaf in x[4] | y[4]:
+                    for dl in defs.whole(leaf):
+                        q = dl[1]
+                        if q == x[3] or x[3] not in dom.get(q, ()):
+                            continue
+                        work, seen = [q], {x[3]}
+                        while work:
+                            u = work.pop()
+                            for v in succs[u]:
+                                if v == y[3]:
+                                    return False
+                                if v not in seen:
+                                    seen.add(v)
+                                    work.append(v)
+                return True
+            together = []
+            for i, x in enumerate(ls):
+                for y in ls[i + 1:]:
+                    if x[0] == y[0]:
+                        continue
+                    if x[3] in dom.get(y[3], ()) and same_inputs(x, y):
+                        together.append((x, y))
+                    elif y[3] in dom.get(x[3], ()) and same_inputs(y, x):
+                        together.append((x, y))
             if not together:
                 continue
             names = sorted({n_ for pr in together for n_ in (pr[0][0], pr[1][0])})
